@@ -58,14 +58,9 @@ func (em *eventMon) checkNode(c *Ctx, n *SimNode) {
 		st = &evState{m: n.m, set: map[string]string{}}
 		em.st[n.idx] = st
 		n.mu.Lock()
-		// events of a fresh instance start with its own join; find it
-		st.next = len(n.events)
-		for i := len(n.events) - 1; i >= 0; i-- {
-			if n.events[i].Kind == "join" && n.events[i].Name == n.name {
-				st.next = i
-				break
-			}
-		}
+		// the log of this instance (usually its own join comes first, but a packet handled
+		// between newMemberlist and setAlive inside Create may deliver a peer's join before it)
+		st.next = n.genStart
 		n.mu.Unlock()
 	}
 	if st.reported {
